@@ -328,7 +328,8 @@ def _get_cvar_weights_from_percentile(
 
     p_max = 1.0 / indices.size
     n_var = int(percentile * indices.size)
-    p_var = percentile - n_var * p_max
+    # Rounding may make the remainder slightly negative, weights must not be:
+    p_var = max(percentile - n_var * p_max, 0.0)
 
     weights = np.zeros(values.size)
     weights[indices[:n_var]] = p_max
